@@ -492,7 +492,6 @@ func phiOnlyOf(p, x *ssa.Phi) bool {
 	return true
 }
 
-
 // funcValue: v denotes one function (a function, a method expression, a closure).
 func funcValue(v ssa.Value) (ssa.Value, bool) {
 	switch x := v.(type) {
@@ -579,7 +578,6 @@ func funcTargetsLive(c *Ctx, v ssa.Value, live func(phi *ssa.Phi, i int) bool, d
 	}
 	return nil
 }
-
 
 // unthunk: the method behind the wrapper a method expression T.M denotes (same parameters, receiver first).
 func unthunk(fn *ssa.Function) *ssa.Function {
